@@ -596,6 +596,42 @@ def fixed_programs():
         out.append(Program([Func("main", [], VOID, [Decl(C("Leaf"), "l", New("Leaf", I(7))), Echo(Fld(Var("l"), "id")), Echo(Fld(Var("l"), "label")), Echo(MCall(Var("l"), "rootId")),
                                                     Echo(MCall(Var("l"), "kind")), Echo(Fld(Var("l"), "samples")), Echo(Fld(Var("l"), "offset")), Echo(Fld(Var("l"), "unit")),
                                                     Echo(Fld(Var("l"), "reading")), Decl(C("Device"), "r", New("Device", I(9))), Echo(MCall(Var("r"), "kind"))])], cls))
+    # (6) construction passes through a middle class that adds nothing (no fields, '= default' constructor): the classes above it
+    #     still run their field initialisers and constructor bodies
+    root = Class("Root", "", [Field(INT, "serial", I(42)), Field(STR, "tag", S("root"))], [], [Ctor([], [Echo(S("Root ctor")), Expr(FAsg(This(), "serial", Bin("+", Var("serial"), I(1))))])], [])
+    middle = Class("Middle", "Root", [], [Method("who", [], STR, [Ret(Var("tag"))])], [Ctor([], [], default=True)], [])
+    middle2 = Class("Middle2", "Middle", [], [], [Ctor([], [], default=True)], [])
+    leaf = Class("Leaf", "Middle", [Field(INT, "own", I(7))], [], [Ctor([], [Echo(Bin("+", S("Leaf sees "), Var("serial"))), Echo(Var("tag"))])], [])
+    leafs = Class("LeafS", "Middle2", [], [], [Ctor([], [Super(), Echo(Bin("+", S("LeafS sees "), Var("serial")))])], [])
+    leafd = Class("LeafD", "Middle2", [Field(INT, "x", I(1))], [], [Ctor([], [], default=True)], [])
+    for order in ((0, 1, 2, 3, 4, 5), (5, 4, 3, 2, 1, 0)):
+        cl = [root, middle, middle2, leaf, leafs, leafd]
+        out.append(Program([Func("main", [], VOID, [Decl(C("Leaf"), "a", New("Leaf")), Echo(Fld(Var("a"), "serial")), Echo(MCall(Var("a"), "who")),
+                                                    Decl(C("LeafS"), "b", New("LeafS")), Echo(Fld(Var("b"), "tag")),
+                                                    Decl(C("LeafD"), "c", New("LeafD")), Echo(Fld(Var("c"), "serial")), Echo(Fld(Var("c"), "x")),
+                                                    Decl(C("Middle"), "m", New("Middle")), Echo(Fld(Var("m"), "serial")), Decl(C("Root"), "r", New("Middle2")), Echo(Fld(Var("r"), "tag"))])],
+                           [cl[i] for i in order]))
+    # (7) a virtual declared at the top of a three-level generic chain, not redeclared in the middle, overridden (plain 'override') at
+    #     the bottom - generic and plain leaves; called through every static type of the chain and unqualified from a base method
+    src = Class("Source", "", [Field(T, "seed")], [Method("name", [], STR, [Ret(S("Source"))], virtual=True), Method("pick", [Param(T, "o")], T, [Ret(Fld(This(), "seed"))], virtual=True),
+                                                   Method("report", [], STR, [Ret(Bin("+", S("report:"), MCall(This(), "name", bare=True)))])],
+                [Ctor([Param(T, "s0")], [Expr(FAsg(This(), "seed", Var("s0")))])], [], tparams=["T"])
+    relay = Class("Relay", "Source", [Field(INT, "hops", I(0))], [Method("hop", [], INT, [Expr(FAsg(This(), "hops", Bin("+", Fld(This(), "hops"), I(1)))), Ret(Fld(This(), "hops"))])],
+                  [Ctor([Param(T, "s0")], [Super(Var("s0"))])], [], tparams=["T"], base_targs=[T])
+    sink = Class("Sink", "Relay", [], [Method("name", [], STR, [Ret(S("Sink"))], override=True), Method("pick", [Param(T, "o")], T, [Ret(Var("o"))], override=True)],
+                 [Ctor([Param(T, "s0")], [Super(Var("s0"))])], [], tparams=["T"], base_targs=[T])
+    direct = Class("Direct", "Source", [], [Method("name", [], STR, [Ret(S("Direct"))], override=True)], [Ctor([Param(T, "s0")], [Super(Var("s0"))])], [], tparams=["T"], base_targs=[T])
+    plain = Class("PlainSink", "Relay", [], [Method("name", [], STR, [Ret(S("PlainSink"))], override=True)], [Ctor([], [Super(I(5))])], [], base_targs=[INT])
+    GI = lambda n: C(n, [INT])
+    body = [Decl(GI("Sink"), "own", New("Sink", I(1), targs=[INT])), Echo(MCall(Var("own"), "name")), Echo(MCall(Var("own"), "pick", I(9))),
+            Decl(GI("Source"), "top", New("Sink", I(2), targs=[INT])), Echo(MCall(Var("top"), "name")), Echo(MCall(Var("top"), "pick", I(9))), Echo(MCall(Var("top"), "report")),
+            Decl(GI("Relay"), "mid", New("Sink", I(3), targs=[INT])), Echo(MCall(Var("mid"), "name")), Echo(MCall(Var("mid"), "pick", I(9))), Echo(MCall(Var("mid"), "hop")), Echo(MCall(Var("mid"), "report")),
+            Decl(C("Source", [STR]), "str", New("Sink", S("seed"), targs=[STR])), Echo(MCall(Var("str"), "name")), Echo(MCall(Var("str"), "pick", S("other"))),
+            Decl(GI("Source"), "dir", New("Direct", I(4), targs=[INT])), Echo(MCall(Var("dir"), "name")), Echo(MCall(Var("dir"), "pick", I(9))),
+            Decl(GI("Source"), "pl", New("PlainSink")), Echo(MCall(Var("pl"), "name")), Echo(MCall(Var("pl"), "pick", I(9))), Echo(MCall(Var("pl"), "report"))]
+    for order in ((0, 1, 2, 3, 4), (4, 3, 2, 1, 0), (2, 0, 4, 1, 3)):
+        cl = [src, relay, sink, direct, plain]
+        out.append(Program([Func("main", [], VOID, body)], [cl[i] for i in order]))
     for build in (("Shape", "Circle", "Dot"), ("Dot", "Shape", "Circle"), ("Circle", "Dot", "Shape")):
         log = Class("Log", "", [], [Method("seen", [Param(C("Shape"), "s")], INT, [Echo(S("seen(Shape)")), Ret(I(1))], static=True),
                                     Method("seen", [Param(C("Circle"), "c")], INT, [Echo(S("seen(Circle)")), Ret(I(2))], static=True)], [], [], static=True)
